@@ -1402,6 +1402,11 @@ func envelopeAuthority(env, kind string) (string, string) {
 		if kind != "callback" {
 			return "https", appHost + ":443"
 		}
+	case "port8443":
+		// the application is (also) served on another port: another origin as far as URLs go, the same host for cookies
+		if kind != "callback" {
+			return "https", appHost + ":8443"
+		}
 	}
 	return "https", appHost
 }
@@ -1411,7 +1416,7 @@ func envelopeAuthority(env, kind string) (string, string) {
 func applyEnvelope(env string, req *envoy.CheckRequest) {
 	h := req.Attributes.Request.Http
 	switch env {
-	case "", "http", "port443":
+	case "", "http", "port443", "port8443":
 	case "post":
 		h.Method = "POST"
 		h.Headers["content-type"] = "application/x-www-form-urlencoded"
